@@ -235,6 +235,8 @@ def specs(tier):
             s2 = dict(s)
             s2['backend'] = be
             c = dict(id="%s-%s" % (name, be), spec=s2)
+            if s2.pop('izt', None):
+                c['input_zero_tests'] = 'fork'     # parameter zero sets explored instead of assumed away
             if s2.get('dimred') or s2.get('verbose'):
                 # the eigenvalue-threshold / message-selection comparisons of these configurations multiply into tens of
                 # thousands of paths when both sides are explored: always the 'first' cut here (see DESIGN 9.2)
@@ -255,13 +257,21 @@ def specs(tier):
     add("symlin-grad", fclass='symlin', value_metric=False)
     add("inexact", steps=['inexact'])
     add("gd-trace", dimred='trace')
+    add("function-lmi", function_lmi=True)
+    add("composite-function-lmi", second='convex', steps=['grad', 'prox'], function_lmi='composite',
+        function_lmi_with_constraint=True)
+    add("qg-late-leaf", fclass='qg', stationary=False)
+    add("partition", partition=2)
     if tier == 'thorough':
         add("gd2", steps=['grad', 'grad'])
         add("gd-lmi-two", lmis=['sym2', 'one'])
         add("gd-lmi-two-objects-reversed", lmis=['sym2', 'one'], lmi_objects=True, lmi_reversed=True)
         add("gd-lmi-three", lmis=['three'])
         add("composite", second='convex', steps=['grad', 'prox'])
-        add("qg", fclass='qg', stationary=False)
+        add("gd-forked-zero-tests", izt='fork')
+        add("gd-lmi-forked-zero-tests", lmis=['sym2'], izt='fork')
+        add("linop", fclass='linop', value_metric=False)
+        add("partition3", partition=3)
         add("gd-cons-lmi-verbose", cons=['le', 'eq'], lmis=['sym2'], verbose=1)
         add("gd-primal", **{'return': 'primal'})
         add("skew", fclass='skew', value_metric=False)
